@@ -37,6 +37,9 @@ def make_item(it, flip, transformed):
     if it["hasfun"]:
         functions = Functions.create(weighted_objective=np.array(obj), objectives=np.array([obj]))
     viol = 0.0 if it["feas_raw"] else 1.0
+    if it.get("userdiffers") and not transformed:
+        # the USER-domain twin reports the opposite (a rescaling transform): feasibility is judged where the optimizer works
+        viol = 1.0 - viol
     return FunctionResults(
         batch_id=it["id"], metadata={"domain": "optimizer" if transformed else "user"},
         realizations=Realizations(failed_realizations=np.array([False])),
@@ -57,9 +60,12 @@ def drive(sc):
     # the second tracked step lives in a NESTED plan: its events reach the handlers of the enclosing plan through the parent link
     inner = Plan(plan.optimizer_context) if hasattr(plan, "optimizer_context") else None
     if inner is not None:
+        # (the nested plan was nested in ANOTHER plan before: the parent that counts is the one it runs under now)
+        inner.set_parent(Plan(plan.optimizer_context))
         inner.set_parent(plan)
     for ev in sc["events"]:
         items = [dict(it, feas_raw=it["feas"]) for it in ev["items"]]
+        assert par["flip"] or not any(it.get("userdiffers") for it in items)
         results = tuple(make_item(it, par["flip"], False) for it in items)
         data = {"results": results}
         if par["flip"]:
@@ -72,7 +78,7 @@ def drive(sc):
             for et in (EventType.FINISHED_OPTIMIZER_STEP, EventType.START_OPTIMIZER_STEP):
                 plan.emit_event(Event(event_type=et, config=config(), source={"tracked": tracked, "tracked2": tracked2}.get(ev["src"], other), data={}))
         kept = plan.get(tracker, "results")
-        eff = [{k: it[k] for k in ("id", "kind", "hasfun", "obj", "nan")} | {"feas": bool(it["feas"] or par["tolnone"])}
+        eff = [{k: it[k] for k in ("id", "kind", "hasfun", "obj", "nan")} | {"feas": bool(it["feas"] or par["tolnone"])}   # (optimizer domain)
                for it in ev["items"]]
         trace.append({"ev": "Event", "what": par["what"], "flip": bool(par["flip"]), "src": ev["src"], "items": eff, "listens": srcs == "set",
                       "kept": 0 if kept is None else int(kept.batch_id),
@@ -173,6 +179,14 @@ def drive(sc):  # noqa: F811
 def extra_scenarios(tier, seed):
     rng = np.random.default_rng(seed)
     out = []
+    # results whose two twins disagree about feasibility (violations rescaled by a transform): the optimizer-domain twin decides
+    for what in ("best", "last"):
+        for order in (0, 1):
+            good = {"kind": "F", "hasfun": True, "obj": 1, "nan": False, "feas": True, "userdiffers": True}
+            bad = {"kind": "F", "hasfun": True, "obj": 2 if what == "last" else 0, "nan": False, "feas": False, "userdiffers": True}
+            seq = [good, bad] if order == 0 else [bad, good]
+            out.append({"par": {"what": what, "flip": True, "tolnone": False, "tol": "pos", "srcs": "set"},
+                        "events": [{"src": "tracked", "items": [dict(it, id=10 * (k + 1) + 1)]} for k, it in enumerate(seq)]})
     # batches that contain a FAILED evaluation (no function values) whose feasibility differs from its neighbour's
     n = 0
     for what in ("best", "last"):
